@@ -284,3 +284,87 @@ func VerifC02_Strings() {
 	vx.Assert("string-decodes-as-rfc8259", len(got) == len(want) && vx.StrEq(got, want))
 	vx.Cover("done", true)
 }
+
+var str2Templates = [...]string{`"?"`, `"\?"`, `"?\n?"`, `"\u00??"`}
+
+// VerifC02_StringsChunked: a document with two strings - the first went
+// through the escape (slow) path, the second is a template with symbolic
+// content - read through the reader front-ends with one split at every
+// position (so that every byte of the second literal, its opening quote
+// included, is once the last byte of a read): the second string, as array
+// element or as member name, decodes as the reference says.
+func VerifC02_StringsChunked() {
+	fe := vx.Choose("fe", 4)
+	tmpl := str2Templates[vx.Choose("template", len(str2Templates))]
+	asKey := vx.Choose("key", 2) == 1
+	vx.Key("fe", []string{"oj.ParseReader", "oj.TokenizeLoad", "gen.ParseReader", "sen.ParseReader"}[fe])
+	vx.Key("template", tmpl)
+	vx.Key("key", asKey)
+	lit := make([]byte, len(tmpl))
+	for i := 0; i < len(tmpl); i++ {
+		if tmpl[i] == '?' {
+			lit[i] = vx.Byte("c")
+		} else {
+			lit[i] = tmpl[i]
+		}
+	}
+	want, valid := vref.DecodeString(lit)
+	if !valid {
+		vx.Assume(false)
+	}
+	var doc []byte
+	if asKey {
+		doc = append(append([]byte(`{"k\t1":0,`), lit...), []byte(":1}")...)
+	} else {
+		doc = append(append([]byte(`["a\tb",`), lit...), ']')
+	}
+	split := vx.Concrete(vx.IntIn("split", 1, len(doc)-1))
+	vx.Key("split", split)
+	rd := &chunkReader{data: append([]byte{}, doc...), chunks: []int{split}}
+	var got string
+	var have bool
+	var err error
+	pan := vx.Catch(func() {
+		var v any
+		switch fe {
+		case 0:
+			v, err = (&oj.Parser{}).ParseReader(rd)
+		case 1:
+			h := &builder{}
+			err = (&oj.Tokenizer{}).Load(rd, h)
+			v = h.result()
+		case 2:
+			var n gen.Node
+			n, err = (&gen.Parser{}).ParseReader(rd)
+			v = simplify(n)
+		default:
+			v, err = (&sen.Parser{}).ParseReader(rd)
+		}
+		if asKey {
+			if m, ok := v.(map[string]any); ok && len(m) == 2 {
+				for k := range m {
+					if k != "k\t1" {
+						got, have = k, true
+					}
+				}
+			}
+		} else if a, ok := v.([]any); ok && len(a) == 2 {
+			got, have = a[1].(string)
+		}
+	})
+	vx.Assert("no-panic", !pan)
+	if pan {
+		return
+	}
+	vx.Assert("valid-literal-accepted", err == nil)
+	if err != nil {
+		return
+	}
+	vx.Assert("structure", have)
+	if !have {
+		return
+	}
+	vx.Observe("got", got)
+	vx.Assert("string-decodes-as-rfc8259", len(got) == len(want) && vx.StrEq(got, want))
+	vx.Cover("done", true)
+}
